@@ -393,7 +393,13 @@ pub fn c20_case(src: &mut Src, obs: &mut Obs) -> CaseResult {
     let Some((conn, sh)) = new_p2p(Some(maxq.max(1))) else { return Err(Failure::new("harness: p2p connection could not be built")) };
     let nops = 2 + src.below(24);
     let mut ops = vec![];
+    // per-operation choices (queue size asked for, way of disposal), drawn here: everything after
+    // the operations is the schedule
+    let mut extra: Vec<(u8, u8)> = vec![];
+    // messages are not always consumed at once: within the capacity they may sit in the queue
+    let lazy = src.chance(110);
     for _ in 0..nops {
+        extra.push((src.u8(), src.u8()));
         ops.push(match src.weighted(&[4, 2, 3, 8, 4]) {
             0 => Op::Create(src.below(4)),
             1 => Op::CloneS(src.below(8)),
@@ -418,8 +424,6 @@ pub fn c20_case(src: &mut Src, obs: &mut Obs) -> CaseResult {
     // long as its first subscriber asked for and only ever grows with later ones; the unfiltered
     // stream has the connection's max_queued)
     let mut cap: [usize; 4] = [maxq, 0, 0, 0];
-    // messages are not always consumed at once: within the capacity they may sit in the queue
-    let lazy = src.chance(110);
     let rest: Vec<u8> = src.rest().to_vec();
     let mut sch = Sch::new(rest);
     let mut serial = 500u32;
@@ -428,16 +432,17 @@ pub fn c20_case(src: &mut Src, obs: &mut Obs) -> CaseResult {
     let quiesce = |sched: &mut Sched, sch: &mut Sch| {
         let _ = sched.run(&mut || sch.next(), 200_000, &mut |_| false);
     };
-    for op in &ops {
+    for (opi, op) in ops.iter().enumerate() {
+        let (x0, x1) = extra[opi];
         match op {
             Op::Create(r) => {
                 let c = conn.clone();
                 let slot: Arc<Mutex<Option<zbus::MessageStream>>> = Default::default();
                 let s2 = slot.clone();
                 let r2 = *r;
-                let small = src.bool();
+                let small = x0 & 1 == 1;
                 // (a later subscriber may ask for less than the queue already has: it must not shrink)
-                let asked = if small { Some(1 + src.below(4)) } else { None };
+                let asked = if small { Some(1 + (x1 as usize % 4)) } else { None };
                 if *r != 0 {
                     let want = asked.unwrap_or(64);
                     let exists = live.iter().any(|l| l.rule == *r);
@@ -488,7 +493,7 @@ pub fn c20_case(src: &mut Src, obs: &mut Obs) -> CaseResult {
                 if got != l.expect {
                     return Err(Failure::new(format!("stream with rule {:?} received serials {got:?}, expected {:?} (ops so far {describe_ops:?}, max_queued {maxq})", RULES[l.rule], l.expect)));
                 }
-                let how = if src.chance(90) { "async_drop" } else { "drop" };
+                let how = if x0 % 3 == 0 { "async_drop" } else { "drop" };
                 if how == "async_drop" {
                     if let Some(st) = l.stream.lock().unwrap().take() {
                         let a = sched.spawn("async-drop", async move {
@@ -562,6 +567,13 @@ pub fn c20_case(src: &mut Src, obs: &mut Obs) -> CaseResult {
     }
     let same_rule = (0..live.len()).any(|i| (0..i).any(|j| live[i].rule == live[j].rule));
     obs.label(if same_rule { "streams-sharing-a-rule" } else { "distinct-rules" });
+    obs.label(if lazy { "lazy-consumption" } else { "eager-consumption" });
+    if describe_ops.iter().any(|d| d.starts_with("async_drop")) {
+        obs.label("with-async-drop");
+    }
+    if describe_ops.iter().any(|d| d.contains("max_queued Some")) {
+        obs.label("with-explicit-queue-size");
+    }
     if dropped_between && ops.iter().filter(|o| matches!(o, Op::Incoming(_))).count() >= 2 {
         obs.nontrivial(fnv(format!("{describe_ops:?}{maxq}").as_bytes()));
         obs.sample("history", || format!("max_queued={maxq} ops={describe_ops:?}"));
